@@ -2,7 +2,7 @@
 From Coq Require Import String ZArith List Bool.
 From XV Require Import Base.Scalar Base.Sum Base.Mat Model.Eof Model.Rot Model.FlagState Gen.T5flag Proofs.C01_proofs Proofs.C11_proofs
   Proofs.FlagState_proofs Proofs.RotState_proofs Proofs.Flag_tie
-  Model.FitChain Proofs.FitChain_proofs Gen.T7chain Gen.T7pipe Proofs.Chain_tie Gen.T5cpcca.
+  Model.FitChain Proofs.FitChain_proofs Gen.T7chain Gen.T7pipe Proofs.Chain_tie Gen.T5cpcca Gen.T5rot Proofs.XRot_proofs Proofs.C11_tie.
 Import ListNotations.
 
 (* EOF-type models: X V_k = U_k diag(s_k), with the model's own sign convention *)
@@ -109,3 +109,26 @@ Theorem C04_cross_field_tables_in_source :
                            ("scores1", "scores1", "norm1", "div-if-normalized"); ("scores2", "scores2", "norm2", "div-if-normalized")])%string.
 Proof. exact cpcca_field_tables. Qed.
 Print Assumptions C04_cross_field_tables_in_source.
+
+(* cross-set rotators, one field at a time: fit stores ((S / scaling) RinvT) * norm * sign for the unrotated scores S of the
+   field, transform computes ((Xw Q / scaling) RinvT), re-sorted iff the object is sorted, * sign * norm (step lists and the
+   per-field arrays regenerated from cpcca_rotator.py, C04_cross_rotator_steps_in_source). Whatever state the rotator object
+   was in and whatever was fitted, computed or asked before: after a fit and any number of compute() calls, transform of
+   that fit's (whitened) training data returns the scores the object holds *)
+Theorem C04_cross_rotator_any_history : forall (F : Type) (K : Ops F), FieldLaws K ->
+  forall (n p k : nat) (Q Un : mat) (scaling : vec) (RinvT Xw : mat) (nrm sg : vec) (idx : list nat),
+  (length idx = k /\ forall j, (j < k)%nat -> (nth j idx O < k)%nat) ->
+  mmul K n p k Xw Q = colscale K n k Un scaling -> (forall j, (j < k)%nat -> vget K scaling j <> f0 K) -> wf K n k Un ->
+  forall (before after : list (fop (@rot_out F))) (s0 : fstate (@rot_out F)),
+  Forall (fun o => o = FCompute _) after ->
+  let s := frun _ (rot_sort K n p) true true s0 (before ++ FFit _ (xrot_field K n k Un RinvT nrm sg) idx :: after) in
+  xrot_transform K n p k Q scaling RinvT (fs_sorted _ s) (fs_idx _ s) (fs_data _ s) Xw = r_scores (fs_data _ s).
+Proof. exact (@xrot_any_history). Qed.
+Print Assumptions C04_cross_rotator_any_history.
+
+Theorem C04_cross_rotator_steps_in_source :
+  cpcca_rot_fit_score_steps = [FDivSqrtSvals; FRotate; FMulNorm; FMulSign] /\
+  cpcca_rot_transform_steps = [XProject; XDivSqrtSvals; XRotate; XSortIfSorted; XMulSign; XMulNormUnlessNormalized; XBackWithOwnPreprocessor] /\
+  cpcca_rot_transform_fields = [("X", "components1", "norm1", "preprocessor1"); ("Y", "components2", "norm2", "preprocessor2")]%string.
+Proof. exact tie_cross_rotator_steps. Qed.
+Print Assumptions C04_cross_rotator_steps_in_source.
